@@ -410,3 +410,16 @@ func CountTags(toks []Tok) int {
 	}
 	return n
 }
+
+// MergeText joins adjacent text tokens, as the tokenizer will see them.
+func MergeText(toks []Tok) []Tok {
+	var out []Tok
+	for _, t := range toks {
+		if n := len(out); n > 0 && t.Kind == TText && out[n-1].Kind == TText && out[n-1].Raw == t.Raw {
+			out[n-1].Body += t.Body
+			continue
+		}
+		out = append(out, t)
+	}
+	return out
+}
